@@ -152,6 +152,11 @@ class CCtx:
         obligations whose name contains `match` are proved on the complement of `formula` only."""
         self.regions.append((region_id, match, formula))
 
+    def reproducible(self, when: Any = None, props: Tuple[str, ...] = ("C17",)) -> None:
+        """C17 (non-interference by self-composition): on every return path the result is the same in a
+        second run that differs only in the interpreter's hash seed, the clock and OS entropy."""
+        self.repro = (when, tuple(props))
+
     def mutates(self, param: str, attr_: str, rel: Callable) -> None:
         """`param.attr_` (a list owned by the object) is updated in place: rel(old, new) -> formula."""
         self.mut.append((param, attr_, rel))
@@ -352,6 +357,17 @@ class Registry:
             outs.append((cur, c.pure_result(cur)))
             return outs
         r = M.fresh("res")
+        if getattr(c, "repro", None) is not None or getattr(c, "result_is_function_of_args", False):
+            # a callee that is (claimed and separately proved) reproducible: its result is a function of its
+            # arguments and of its position in the RNG stream -- so a caller's dependence on the hash seed
+            # through an argument is not lost (C17)
+            argt = [v.z for v in env.values() if isinstance(v, (T, Kw))]
+            idx = getattr(ex, "_rng_idx", 0)
+            ex._rng_idx = idx + 1
+            fdecl = z3.Function(f"result_of_{label}_{len(argt)}".replace("[", "_").replace("]", "_").replace(".", "_"),
+                                *([a.sort() for a in argt] + [M.I, Obj]))
+            rr = fdecl(*(argt + [z3.IntVal(idx)]))
+            cur.assume(r == rr)
         post = Post(ex, cur, c.pre_ph, c.pre_alloc)
         for (name, fn, props) in c.ens:
             cur.assume(fn(r, post))
@@ -376,6 +392,71 @@ class Registry:
                             patterns=[z3.Select(ph1, p)]))
         st.ph = ph1
         st.alloc = a1
+
+
+ENV_PREFIXES = ("uuid!", "now!", "today!")
+
+
+def _env_consts(exprs: List[Any]) -> Dict[str, Any]:
+    seen: Dict[int, Any] = {}
+    out: Dict[str, Any] = {}
+
+    def go(e: Any) -> None:
+        if e.get_id() in seen:
+            return
+        seen[e.get_id()] = e
+        if z3.is_quantifier(e):
+            go(e.body())
+            return
+        if z3.is_app(e):
+            if e.num_args() == 0 and e.decl().kind() == z3.Z3_OP_UNINTERPRETED:
+                nm = e.decl().name()
+                if nm == "hashseed" or nm.startswith(ENV_PREFIXES):
+                    out[nm] = e
+            for ch in e.children():
+                go(ch)
+    for e in exprs:
+        go(e)
+    return out
+
+
+def _path_consts(exprs: List[Any]) -> Dict[str, Any]:
+    """every constant introduced along the path (fresh names carry a `!`), except the RNG draws, which are
+    the shared random stream of the two runs"""
+    seen: Dict[int, Any] = {}
+    out: Dict[str, Any] = {}
+
+    def go(e: Any) -> None:
+        if e.get_id() in seen:
+            return
+        seen[e.get_id()] = e
+        if z3.is_quantifier(e):
+            go(e.body())
+            return
+        if z3.is_app(e):
+            if e.num_args() == 0 and e.decl().kind() == z3.Z3_OP_UNINTERPRETED:
+                nm = e.decl().name()
+                if nm == "hashseed" or ("!" in nm and not nm.startswith("rng")):
+                    out[nm] = e
+            for ch in e.children():
+                go(ch)
+    for e in exprs:
+        go(e)
+    return out
+
+
+def noninterference(ex, st: State, r: Any, entry_len: int) -> Any:
+    """Self-composition: a second run of the same path in which the hash seed, the clock / OS entropy
+    results and every value computed along the path are renamed (inputs, the RNG draws and all
+    uninterpreted functions are shared) must return the same result."""
+    facts = list(st.pc[entry_len:])
+    if not _env_consts([r] + facts):
+        return r == r            # nothing environment-dependent was touched on this path
+    consts = _path_consts([r] + facts)
+    subs = [(c_, z3.Const(n + "'", c_.sort())) for n, c_ in consts.items()]
+    r2 = z3.substitute(r, *subs)
+    facts2 = [z3.substitute(f, *subs) for f in facts]
+    return z3.Implies(z3.And(*facts2) if facts2 else z3.BoolVal(True), r == r2)
 
 
 REG = Registry()
@@ -487,6 +568,13 @@ def verify_function(repo: Repo, ct: M.ClassTable, reg: Registry, con: Contract,
                 for (name, fn, props) in c.ens:
                     ex.oblige(s, f"{q}:ensures[{name}]:path#{pi}", "ensures", fn(r, post),
                               props or con.props, text=name)
+                if getattr(c, "repro", None) is not None:
+                    when, rprops = c.repro
+                    goal = noninterference(ex, s, r, len(fr.entry_pc))
+                    if when is not None:
+                        goal = z3.Implies(when, goal)
+                    ex.oblige(s, f"{q}:reproducible:path#{pi}", "ensures", goal, rprops,
+                              text="same result under a different hash seed / clock / OS entropy")
                 for cls, cond in c.raise_when.items():
                     ex.oblige(s, f"{q}:returns-only-if-not[{cls}]:path#{pi}", "raises", z3.Not(cond),
                               c.raise_props or con.props,
